@@ -158,7 +158,7 @@ theorem C12_assoc_spec (c : Case) (hwf : wf c = true) (hop : c.op = .assoc)
     (model c).values =
       c.cur.map (fun kv => (kv.1, match lookup kv.1 c.changes with | some w => some w | none => kv.2)) := by
   have p := wfParts c hwf
-  have hl : assocLoop (fun n => c.cur.any (·.1 == n)) c.instHasDict c.changes = none := by
+  have hl : assocLoop (fun n => c.cur.any (·.1 == n)) c.changes = none := by
     apply assocLoop_all_fields
     rw [← hall]; congr 1; exact isField_eq c p
   unfold model
@@ -166,24 +166,36 @@ theorem C12_assoc_spec (c : Case) (hwf : wf c = true) (hop : c.op = .assoc)
   simp only [hl, assocValues_eq]
   exact ⟨trivial, trivial, trivial, rfl⟩
 
-/-- **C12_assoc_unknown_notfound**: a name that is not a field — whatever else it names on the instance or its
-    class: a method, a property, a class constant, an instance attribute, a dunder — makes `assoc` raise
-    AttrsAttributeNotFoundError (outside K12a: names that resolve on every fields tuple). -/
-theorem C12_assoc_unknown_notfound (c : Case) (hwf : wf c = true) (hk : known c = []) (hop : c.op = .assoc)
+/-- **C12_assoc_unknown_notfound**: a name that is not a field — whatever else it names: an attribute of every
+    tuple (`count`, `index`, `__len__`, `__doc__` …), a method, a property, a class constant, an instance attribute,
+    a dunder — makes `assoc` raise AttrsAttributeNotFoundError; no result is handed out and the original is
+    untouched. -/
+theorem C12_assoc_unknown_notfound (c : Case) (hwf : wf c = true) (hop : c.op = .assoc)
     (hbad : c.changes.all (fun kv => c.base.run.attrs.any (·.name == kv.1)) = false) :
-    (model c).exc = some .notFound := by
+    (model c).exc = some .notFound ∧ (model c).values = [] ∧ (model c).orig = c.cur := by
   have p := wfParts c hwf
-  have ht := (known_nil c hk).2.2
-  unfold tupleName at ht
-  simp only [hop, beq_self_eq_true, Bool.true_and] at ht
-  have hl : assocLoop (fun n => c.cur.any (·.1 == n)) c.instHasDict c.changes = some .notFound := by
+  have hl : assocLoop (fun n => c.cur.any (·.1 == n)) c.changes = some .notFound := by
     apply assocLoop_notFound
-    · rw [← hbad]; congr 1; exact isField_eq c p
-    · rw [← ht]; congr 1; funext kv; rw [any_cur_eq c p kv.1]
+    rw [← hbad]; congr 1; exact isField_eq c p
   unfold model
   rw [hop]
   simp only [hl]
-  rfl
+  exact ⟨rfl, rfl, rfl⟩
+
+/-- **C12_assoc_notfound_iff**: `assoc` raises AttrsAttributeNotFoundError exactly when some name is no field; a
+    field is accepted whatever its name is (also `count` or `index`). -/
+theorem C12_assoc_notfound_iff (c : Case) (hwf : wf c = true) (hop : c.op = .assoc) :
+    (model c).exc = some .notFound ↔
+      c.changes.all (fun kv => c.base.run.attrs.any (·.name == kv.1)) = false := by
+  constructor
+  · intro h
+    cases hall : c.changes.all (fun kv => c.base.run.attrs.any (·.name == kv.1)) with
+    | false => rfl
+    | true =>
+      have := (C12_assoc_spec c hwf hop hall).1
+      rw [this] at h
+      cases h
+  · intro h; exact (C12_assoc_unknown_notfound c hwf hop h).1
 
 /-- **C12_result_invariants**: outside the known findings, whatever either operation returns satisfies the
     class invariants (equal to, and hashing like, an instance rebuilt from its own values; frozen iff the
@@ -193,7 +205,7 @@ theorem C12_result_invariants (c : Case) (hwf : wf c = true) (hk : known c = [])
   have p := wfParts c hwf
   cases hop : c.op with
   | evolve =>
-    have hcm := (known_nil c hk).2.1 hop
+    have hcm := (known_nil c hk).2 hop
     cases hall : c.changes.all (fun kv => (c.base.run.attrs.filter (·.init)).any (·.alias == kv.1)) with
     | false => rw [C12_unknown_typeerror c hwf hk hop hall] at he; cases he
     | true =>
@@ -247,7 +259,7 @@ theorem C12_assoc_identity (c : Case) (hwf : wf c = true) (hop : c.op = .assoc)
     (kv : String × Option Val) (hkv : kv ∈ c.cur) :
     (kv.1, identDemandV (c.changes.any (·.1 == kv.1)) kv.2) ∈ (model c).ident := by
   have p := wfParts c hwf
-  have hl : assocLoop (fun n => c.cur.any (·.1 == n)) c.instHasDict c.changes = none := by
+  have hl : assocLoop (fun n => c.cur.any (·.1 == n)) c.changes = none := by
     apply assocLoop_all_fields
     rw [← hall]; congr 1; exact isField_eq c p
   have hid : (model c).ident = assocIdent c.cur c.changes := by
@@ -270,7 +282,7 @@ theorem C12_assoc_identity (c : Case) (hwf : wf c = true) (hop : c.op = .assoc)
     | some w => rfl
 
 /-- **C12_model_meets_spec**: the model satisfies the declarative specification on every well-formed case
-    outside the listed known findings (K2, K3, K12a). -/
+    outside the listed known findings (K2, K3). -/
 theorem C12_model_meets_spec (c : Case) (hwf : wf c = true) (hk : known c = []) :
     spec c (model c) = true := by
   unfold spec
@@ -324,7 +336,7 @@ theorem C12_model_meets_spec (c : Case) (hwf : wf c = true) (hk : known c = []) 
       rw [v]
       exact beq_iff_eq.2 rfl
     | false =>
-      have := C12_assoc_unknown_notfound c hwf hk hop hall
+      have := (C12_assoc_unknown_notfound c hwf hop hall).1
       simp [this]
 
 /-! ### known findings and non-vacuity -/
@@ -333,7 +345,7 @@ theorem C12_model_meets_spec (c : Case) (hwf : wf c = true) (hk : known c = []) 
     frozen slotted one, legacy collection) evolved without changes -/
 def k3Witness : Case :=
   { base := C01.k3Witness, op := .evolve, cur := [("x", some "v0")], changes := [], veto := [],
-    instHasDict := true, copyNeedsAll := true }
+    copyNeedsAll := true }
 
 /-- **C12_known_slot_belief_witness** (K3): evolve constructs through the same initializer, so on a K3 class
     the model — like the code — returns an instance whose field reads as unset. -/
@@ -350,8 +362,7 @@ def k2Witness : Case :=
                                    convType := none }],
                        own := ["x"], bases := [], cacheIsSlot := true, fault := none },
               call := { pos := [], kw := [] }, isDefine := true, clsOnSet := .unset },
-    op := .evolve, cur := [("x", some "v0")], changes := [("x", "t1")], veto := [], instHasDict := true,
-    copyNeedsAll := false }
+    op := .evolve, cur := [("x", some "v0")], changes := [("x", "t1")], veto := [], copyNeedsAll := false }
 
 /-- **C12_known_cache_misplaced_witness** (K2): the evolved instance cannot be hashed, so the invariants fail
     (an `assoc` result can: the copy's cache is reset in the slot, see `cacheMisplaced`). -/
@@ -382,7 +393,7 @@ def sample : Case :=
     op := .evolve, cur := [("x", some "conv.x(t1)"), ("y", some "w"), ("_z", some "t2")],
     changes := [("z", "t3")],
     -- the validator of `x` rejects instances whose `_z` is bad
-    veto := [{ field := "x", idx := 0, watch := "_z" }], instHasDict := false, copyNeedsAll := true }
+    veto := [{ field := "x", idx := 0, watch := "_z" }], copyNeedsAll := true }
 
 /-- non-vacuity: the hypotheses of `C12_evolve_values` / `C12_model_meets_spec` are satisfiable by a
     non-trivial evolve case, … -/
@@ -448,20 +459,39 @@ example : (model { sample with op := .assoc, changes := [("_z", "bad1")] }).exc 
       [("x", some "v"), ("y", some "n1"), ("_z", some "t2")] := by
   refine ⟨by decide, by decide, by decide, by decide, by decide⟩
 
-/-- the K12a witness: `count` is no field but an attribute of every tuple -/
-def k12aWitness : Case := { sample with op := .assoc, changes := [("count", "t9")], instHasDict := true }
+/-- the former K12a shape (repaired in /repo): `count` is no field of `sample` but an attribute of every tuple -/
+def tupleNameCase : Case := { sample with op := .assoc, changes := [("count", "t9")] }
 
-/-- **C12_known_tuple_name_witness** (K12a): `assoc(inst, count=…)` does not raise AttrsAttributeNotFoundError — the
-    model, like the code, writes a stray attribute (AttributeError on an instance without `__dict__`); any other
-    non-field name (a method, a class constant, a dunder that `tuple` lacks) is refused as demanded. -/
-theorem C12_known_tuple_name_witness :
-    ∃ c, wf c = true ∧ "K12a" ∈ known c ∧ spec c (model c) = false :=
-  ⟨k12aWitness, by decide, by decide, by decide⟩
+/-- a class with a FIELD named `count` (and one named `index`) -/
+def countFieldCase : Case :=
+  { base := { run := { cfg := { frozen := false, slots := false, cacheHash := false, isExc := false, pre := .none,
+                                post := false, clsHook := false, runValidators := true, collectByMro := true },
+                       attrs := [{ name := "count", alias := "count", dflt := .none, init := true, kwOnly := false,
+                                   conv := none, validators := 0, onSet := .unset, isSlot := false, type := none,
+                                   convType := none },
+                                 { name := "index", alias := "index", dflt := .value, init := true, kwOnly := false,
+                                   conv := none, validators := 0, onSet := .unset, isSlot := false, type := none,
+                                   convType := none }],
+                       own := ["count", "index"], bases := [], cacheIsSlot := false, fault := none },
+              call := { pos := [], kw := [] }, isDefine := false, clsOnSet := .unset },
+    op := .assoc, cur := [("count", some "t1"), ("index", some "dflt.index")],
+    changes := [("count", "n1"), ("index", "n2")], veto := [], copyNeedsAll := false }
 
-example : (model k12aWitness).exc = none ∧ (model { k12aWitness with instHasDict := false }).exc = some .attributeError ∧
-    known { k12aWitness with changes := [("describe", "t9")] } = [] ∧
-    (model { k12aWitness with changes := [("describe", "t9")] }).exc = some .notFound ∧
-    (model { k12aWitness with changes := [("__attrs_attrs__", "t9"), ("count", "t9")] }).exc = some .notFound := by
-  refine ⟨by decide, by decide, by decide, by decide, by decide⟩
+/-- **C12_tuple_names_rejected** (was known finding K12a): names that resolve on every fields tuple are no fields:
+    `assoc(inst, count=…)` / `index` / `__len__` / `__doc__` raise AttrsAttributeNotFoundError like any other
+    non-field name — alone, after a genuine field, or before one — and hand out nothing; a FIELD that is itself
+    named `count` / `index` is replaced like any other field. -/
+theorem C12_tuple_names_rejected :
+    wf tupleNameCase = true ∧ known tupleNameCase = [] ∧ spec tupleNameCase (model tupleNameCase) = true ∧
+    (model tupleNameCase).exc = some .notFound ∧ (model tupleNameCase).values = [] ∧
+    (model { tupleNameCase with changes := [("index", "t9")] }).exc = some .notFound ∧
+    (model { tupleNameCase with changes := [("x", "n1"), ("__len__", "t9")] }).exc = some .notFound ∧
+    (model { tupleNameCase with changes := [("__doc__", "t9"), ("x", "n1")] }).exc = some .notFound ∧
+    (model { tupleNameCase with changes := [("describe", "t9")] }).exc = some .notFound ∧
+    wf countFieldCase = true ∧ (model countFieldCase).exc = none ∧
+    (model countFieldCase).values = [("count", some "n1"), ("index", some "n2")] ∧
+    (model { countFieldCase with changes := [("count", "n1"), ("__len__", "n2")] }).exc = some .notFound := by
+  refine ⟨by decide, by decide, by decide, by decide, by decide, by decide, by decide, by decide, by decide,
+    by decide, by decide, by decide, by decide⟩
 
 end Attrs.C12
